@@ -3,7 +3,9 @@ package main
 import (
 	"encoding/hex"
 	"encoding/json"
+	"errors"
 	"fmt"
+	"io"
 	"net/netip"
 	"os"
 	"strings"
@@ -426,4 +428,177 @@ func scenarioCollide(withStacks bool) {
 		}
 	}
 	finishReplay("collide", sl, done, time.Second, withStacks)
+}
+
+// scenarioResult prints a must-hold scenario's verdict (violation = a clause of the property
+// observed broken, with a key) and exits.
+func scenarioResult(name string, sl *stepLog, key, detail string) {
+	res := struct {
+		Replay    string   `json:"replay"`
+		Hang      bool     `json:"hang"`
+		Violation bool     `json:"violation"`
+		Key       string   `json:"key,omitempty"`
+		Detail    string   `json:"detail,omitempty"`
+		Steps     []string `json:"steps"`
+	}{Replay: name, Violation: key != "", Key: key, Detail: detail, Steps: sl.steps}
+	b, _ := json.Marshal(res)
+	fmt.Println(string(b))
+	os.Exit(0)
+}
+
+// waitAll waits for the channels; false on timeout.
+func waitAll(done []chan struct{}, d time.Duration) bool {
+	deadline := time.After(d)
+	for _, c := range done {
+		select {
+		case <-c:
+		case <-deadline:
+			return false
+		}
+	}
+	return true
+}
+
+// scenarioClose2 — overlapping Close calls must be idempotent ("nothing panics", "a closed device
+// stays closed", goroutines terminate).  A panic kills this child: the driver reports it from
+// the exit status and stderr (key=panic-<first device frame>).
+//
+//	variant A: a UAPI set whose input is still arriving holds ipcMutex (io.Pipe, one line
+//	           written); two Close() calls 50 ms apart; then the input ends.
+//	variant B: Up is parked inside bind.Open (OpenGate) holding state.mu; two Close() calls;
+//	           then the gate is released.
+func scenarioClose2(withStacks bool) {
+	sl := &stepLog{}
+	for v := 0; v < 2; v++ {
+		a := cosim.NewPeer("A", "192.0.2.7:5555", "10.0.0.2/32")
+		w, err := cosim.NewWorld(cosim.Config{Up: v == 0}, true, a)
+		if err != nil {
+			panic(err)
+		}
+		var done []chan struct{}
+		spawn := func(f func()) {
+			d := make(chan struct{})
+			done = append(done, d)
+			go func() { defer close(d); f() }()
+		}
+		release := make(chan struct{})
+		if v == 0 {
+			pr, pw := io.Pipe()
+			spawn(func() { w.Dev.IpcSetOperation(pr) })
+			pw.Write([]byte("fwmark=1\n"))
+			if !waitFrame("device.(*Device).IpcSetOperation", 5*time.Second) {
+				panic("set not started")
+			}
+			go func() { <-release; pw.Close() }()
+			sl.add("variant A: IpcSetOperation reading from a stalled pipe (holds ipcMutex)")
+		} else {
+			entered := make(chan struct{})
+			var armed atomic.Bool
+			armed.Store(true)
+			w.Bind.OpenGate = func(uint16) {
+				if armed.Swap(false) {
+					close(entered)
+					<-release
+				}
+			}
+			spawn(func() { w.Dev.Up() })
+			<-entered
+			sl.add("variant B: Up parked inside bind.Open (holds state.mu and net)")
+		}
+		spawn(func() { w.Dev.Close() })
+		time.Sleep(50 * time.Millisecond)
+		spawn(func() { w.Dev.Close() })
+		time.Sleep(50 * time.Millisecond)
+		sl.add("two Close() calls issued 50 ms apart, both waiting")
+		close(release)
+		if !waitAll(done, 10*time.Second) {
+			finishReplay("close2", sl, done, time.Second, withStacks)
+		}
+		sl.add("all calls returned; state=%d", w.Dev.VerifDeviceState())
+		if w.Dev.VerifDeviceState() != 2 {
+			scenarioResult("close2", sl, "not-closed-after-close", "device state is not closed after Close returned")
+		}
+		// goroutines started by the device terminate
+		deadline := time.Now().Add(10 * time.Second)
+		for {
+			n, left := deviceCount()
+			if n == 0 {
+				break
+			}
+			if time.Now().After(deadline) {
+				scenarioResult("close2", sl, "goroutine-leak-"+topDevice(left[0]), fmt.Sprintf("%d device goroutines alive 10 s after overlapping Close calls returned", n))
+			}
+			time.Sleep(5 * time.Millisecond)
+		}
+	}
+	scenarioResult("close2", sl, "", "")
+}
+
+// recvLoopsParked reports whether some RoutineReceiveIncoming goroutine is parked in its loop
+// (not merely finishing) in two scans 20 ms apart.
+func recvLoopsParked() bool {
+	scan := func() bool {
+		for _, g := range parseStacks(dumpStacks()) {
+			for _, f := range g.Funcs {
+				if strings.HasSuffix(f, "device.(*Device).RoutineReceiveIncoming") && g.State != "running" && g.State != "runnable" {
+					return true
+				}
+			}
+		}
+		return false
+	}
+	if !scan() {
+		return false
+	}
+	time.Sleep(20 * time.Millisecond)
+	return scan()
+}
+
+// scenarioCloseFault — "after Down or Close has returned the device has stopped its receive
+// loops", also when bind.Close() reports an error although it did close the sockets
+// (StdNetBind.Close passes on a UDPConn.Close error) and the blocked receive calls need 300 ms
+// to notice.  closeBindLocked must still wait for net.stopping before the error is returned.
+func scenarioCloseFault(withStacks bool) {
+	sl := &stepLog{}
+	a := cosim.NewPeer("A", "192.0.2.7:5555", "10.0.0.2/32")
+	w, err := cosim.NewWorld(cosim.Config{Up: false}, true, a)
+	if err != nil {
+		panic(err)
+	}
+	w.Bind.NumRecv = 2
+	if err := w.Dev.Up(); err != nil {
+		panic(err)
+	}
+	w.Settle()
+	// fault-free Down first: the check itself must be satisfied in the normal case
+	w.Dev.Down()
+	if recvLoopsParked() {
+		scenarioResult("closefault", sl, "recvloop-alive-after-down", "receive loop still parked after a fault-free Down returned")
+	}
+	sl.add("fault-free Down: no receive loop left")
+	for _, what := range []string{"down", "close"} {
+		if err := w.Dev.Up(); err != nil {
+			panic(err)
+		}
+		w.Settle()
+		w.Bind.CloseErr = errors.New("sim: close reported an error")
+		w.Bind.CloseDelay = 300 * time.Millisecond
+		t0 := time.Now()
+		if what == "down" {
+			w.Dev.Down()
+		} else {
+			w.Dev.Close()
+		}
+		dt := time.Since(t0)
+		parked := recvLoopsParked()
+		sl.add("bind.Close reports an error and receive calls need 300 ms to notice: %s returned after %v; receive loop parked afterwards: %v", what, dt.Round(time.Millisecond), parked)
+		if parked {
+			scenarioResult("closefault", sl, "recvloop-alive-after-"+what+"-with-bind-close-error",
+				"RoutineReceiveIncoming still inside the bind's receive call after "+what+" returned (bind.Close reported an error)")
+		}
+		time.Sleep(350 * time.Millisecond)
+		w.Bind.CloseErr = nil
+		w.Bind.CloseDelay = 0
+	}
+	scenarioResult("closefault", sl, "", "")
 }
